@@ -7,6 +7,8 @@ CONSTANTS MaxAtom = 3
  DiscardOnDelete = TRUE
  RecalcAllOnCommit = TRUE
  InitSlotsOnCopy = TRUE
+ RestoreCacheOnAbort = TRUE
+ FullFlushOnSpecialDelete = TRUE
  Elems <- SmallElems
  Orders <- SmallOrders
  Charges <- SmallCharges
